@@ -8,6 +8,16 @@ LEVEL = {"C06": "model_checking", "C07": "model_checking", "C08": "model_checkin
          "C13": "model_checking", "C01": "model_checking", "C02": "model_checking", "C12": "model_checking",
          "C16": "model_checking"}
 
+# (focus, tier) -> maximum number of generated cases replayed (seeded sample beyond it)
+SAMPLE_CAP = {("C01", "quick"): 2500, ("C01", "thorough"): 60000}
+# programs up to this many statements are always kept when sampling
+SHORT_LEN = {"C01": 5}
+
+FOCUS = {"C02": "C01", "C12": "C01", "C16": "C01"}
+
+# which TraceCore counter says "the property's antecedent really occurred" for each property
+NONTRIVIAL = {"C01": "kind_checks", "C12": "const_checks", "C02": "err_exits"}
+
 TRACE_CFG = "SPECIFICATION TraceSpec\nINVARIANT Report\nPOSTCONDITION TraceAccepted\nCHECK_DEADLOCK FALSE\n"
 
 
@@ -16,6 +26,9 @@ def generate(focus, tier, wd, gen_spec="GenCore.tla", consts=""):
     out = tlc(gen_spec, cfg, wd, workers=min(8, NCPU), name=f"Gen_{focus}", timeout=1800)
     cases = printed(out, "REPLAY")
     events = printed(out, "EVENTS")
+    ext = printed(out, "EXTCASES")
+    if ext:
+        cases = [dict(c, ext=x["ext"], extname=x["extname"], events=x["events"]) for c in cases for x in ext[0]]
     st, tr = tlc_stats(out)
     if not cases:
         raise ToolError(f"generator produced no programs for {focus}:\n{out[-2000:]}")
@@ -112,14 +125,28 @@ def dump_findings(agg, wd):
 
 def check(prop, tier, seed, focus=None, props_of_interest=None):
     t0 = time.time()
-    focus = focus or prop
+    focus = focus or FOCUS.get(prop, prop)
     wd = workdir(f"{prop}_{tier}")
     build_harness()
     cases, events, gst, gtr = generate(focus, tier, wd)
-    log(f"[{prop}] generated {len(cases)} programs x {len(events) if events else 1} events")
+    total_generated = len(cases)
+    cap = SAMPLE_CAP.get((focus, tier))
+    sampled = False
+    if cap and len(cases) > cap:
+        import random
+        rnd = random.Random(seed)
+        # keep every short program, sample the rest
+        cases.sort(key=lambda c: (len(c["ast"]), c["id"]))
+        short = [c for c in cases if len(c["ast"]) <= SHORT_LEN.get(focus, 0)]
+        rest = [c for c in cases if len(c["ast"]) > SHORT_LEN.get(focus, 0)]
+        cases = short + rnd.sample(rest, max(0, min(len(rest), cap - len(short))))
+        sampled = True
+    log(f"[{prop}] generated {total_generated} programs, replaying {len(cases)} x {len(events) if events else 'own'} events ({time.time()-t0:.0f}s)")
     shards = max(1, min(NCPU, len(cases) // 8))
     traces = replay(cases, events, wd, shards)
+    log(f"[{prop}] replayed ({time.time()-t0:.0f}s)")
     agg = aggregate(validate(traces, wd))
+    log(f"[{prop}] validated ({time.time()-t0:.0f}s)")
     dump_findings(agg, wd)
     mine = [v for v in agg["viols"] if v["prop"] == prop]
     others = {}
@@ -129,13 +156,13 @@ def check(prop, tier, seed, focus=None, props_of_interest=None):
     rejected = sum(1 for t in traces for l in open(t) if l.startswith('{"e":"reject"'))
     cnt = agg["cnt"]
     samples = []
-    for t in traces[:1]:
+    for t in traces:
         with open(t) as f:
             for l in f:
-                if l.startswith('{"e":"prog"'):
+                if l.startswith('{"e":"prog"') and len(samples) < 5:
                     samples.append({"program": json.loads(l)["src"]})
-                if len(samples) >= 5:
-                    break
+        if len(samples) >= 5:
+            break
 
     def replay_writer(v):
         progl, lines = find_run(v["_file"], v["line"])
@@ -149,17 +176,17 @@ def check(prop, tier, seed, focus=None, props_of_interest=None):
         "traces_validated_against_impl": cnt.get("runs", 0) - cnt.get("skipped_runs", 0),
         "samples": samples,
         "evaluations": cnt.get("runs", 0),
-        "distinct_nontrivial": cnt.get(prop, 0),
+        "distinct_nontrivial": cnt.get(NONTRIVIAL.get(prop, prop), 0),
         "rule": f"programs enumerated exhaustively by TLC from the {focus} focus grammar of GenCore.tla ({tier} bounds) x the "
                 f"event universe; a run is non-trivial when the property's antecedent occurred in it (counted by TraceCore: "
                 f"cnt.{prop}); distinct because every (program, event) pair is generated once",
-        "programs_generated": len(cases), "programs_rejected_by_compiler": rejected,
+        "programs_generated": total_generated, "programs_replayed": len(cases), "programs_rejected_by_compiler": rejected,
         "events_validated": cnt.get("events", 0), "runs_abandoned_after_mismatch": cnt.get("skipped_runs", 0),
         "kind_membership_checks": cnt.get("kind_checks", 0), "constant_checks": cnt.get("const_checks", 0),
         "generator_states": gst, "trace_states": agg["states"],
         "divergences": len(agg["divs"]), "divergence_samples": agg["divs"][:5],
         "witnesses_for_other_properties": others,
-        "exhaustive": True,
+        "exhaustive": not sampled,
     }
     assumptions = ["the harness renders the TLC-generated AST to source and maps compiler records to nodes by span",
                    "hook H1 brackets every Expr::resolve; the logging target sees every target operation",
